@@ -40,6 +40,26 @@ def run(ctx):
     res.rule("P5", "every (reduced, removed) pair returned by rdp_fixed / grdp / mp_grdp / min_point_rdp belongs together: removed is computed for that very reduced")
     from . import rdp_model as _rm
     _rm.check_result_pairing(rc, "P5")
+    mapping_contract(rc)
+    # ---- P3 ------------------------------------------------------------------------
+    m = rm.build(rc, "rdp.rdp", {"cost": Obj("enum", "Metrics.smape")})
+    before = len(res.findings)
+    _r4(rc, m)
+    for f in res.findings[before:]:
+        f.rule = "P3"
+    for o in res.obligations:
+        if o.rule == "R4":
+            o.rule = "P3"
+    res.assumptions += ["the inductive step from P1-P3 to mapping(I) == reduced[I] is a paper argument over these facts",
+                        "positions ascending; removed rows cover consecutive retained pairs"]
+    res.not_decided += ["mapping(I) == reduced[I] as a behavioural equality on concrete reductions"]
+    res.require_instances("C07 obligations", len(res.obligations), 9)
+
+
+
+def mapping_contract(rc: RuleCtx):
+    """P1 / P2: the lookup itself (also borrowed by properties that treat rdp.mapping as an opaque stage)."""
+    res = rc.res
     fi = rc.func("rdp.mapping")
     mod = fi.module
     ev = rc.new_eval()
@@ -167,20 +187,6 @@ def run(ctx):
         res.ok("P1", "rdp.mapping:return", "returns the emitted list as an array")
     else:
         res.violation("P1", mod, fi.name, fi.node, "the emitted list is not what is returned", construct="mapping return")
-    # ---- P3 ------------------------------------------------------------------------
-    m = rm.build(rc, "rdp.rdp", {"cost": Obj("enum", "Metrics.smape")})
-    before = len(res.findings)
-    _r4(rc, m)
-    for f in res.findings[before:]:
-        f.rule = "P3"
-    for o in res.obligations:
-        if o.rule == "R4":
-            o.rule = "P3"
-    res.assumptions += ["the inductive step from P1-P3 to mapping(I) == reduced[I] is a paper argument over these facts",
-                        "positions ascending; removed rows cover consecutive retained pairs"]
-    res.not_decided += ["mapping(I) == reduced[I] as a behavioural equality on concrete reductions"]
-    res.require_instances("C07 obligations", len(res.obligations), 9)
-
 
 
 def _pure(rc: RuleCtx):
